@@ -108,8 +108,28 @@ pub fn run_val(tier: &str, seed: u64, out: &mut Out) {
         }
         let idents: Vec<String> = DATA_FIELDS.iter().map(|s| s.to_string()).chain(stack.iter().map(|x| x.0.clone())).chain(stack.iter().map(|x| x.0.clone())).collect();
         let e = {
-            let mut g = ExprGen { rng: &mut rng, idents, allow_instanceof: false };
-            g.gen(1 + (i % 3))
+            let mut g = ExprGen { rng: &mut rng, idents: idents.clone(), allow_instanceof: false };
+            let inner = g.gen(1 + (i % 3));
+            // every position an identifier can sit in: a scope name is placed there explicitly
+            let id = || GE::Ident(idents[idents.len() - 1 - (i % idents.len().min(4))].clone());
+            let b = |x: GE| Box::new(x);
+            match i % 16 {
+                0 => GE::Arr(vec![GA::Hole, GA::Item(id())]),
+                1 => GE::Arr(vec![GA::Item(inner), GA::Hole, GA::Hole, GA::Spread(GE::Arr(vec![GA::Item(id())]))]),
+                2 => GE::Call(b(GE::Ident("f".into())), vec![inner, id()]),
+                3 => GE::Obj(vec![GO::Named("k".into(), id()), GO::Spread(GE::Obj(vec![GO::Short(match id() { GE::Ident(s) => s, _ => "a".into() })]))]),
+                4 => GE::Index(b(GE::Ident("o".into())), b(id())),
+                5 => GE::Index(b(id()), b(GE::Str("sub".into()))),
+                6 => GE::Cond(b(inner), b(id()), b(GE::Arr(vec![GA::Hole, GA::Item(id())]))),
+                7 => GE::Cond(b(id()), b(inner), b(id())),
+                8 => GE::Member(b(id()), "a".into()),
+                9 => GE::Un("typeof", b(id())),
+                10 => GE::Bin("??", b(id()), b(inner)),
+                11 => GE::Bin("+", b(GE::Str("s".into())), b(id())),
+                12 => GE::Call(b(GE::Member(b(id()), "f".into())), vec![GE::Arr(vec![GA::Hole, GA::Spread(id())])]),
+                13 => GE::Obj(vec![GO::Short(match id() { GE::Ident(s) => s, _ => "a".into() }), GO::Named("z".into(), GE::Arr(vec![GA::Hole, GA::Hole, GA::Item(id())]))]),
+                _ => inner,
+            }
         };
         let st = stack.clone();
         let e_ref = e.reference_js(&|n| st.iter().rev().find(|x| x.0 == n).map(|x| x.1.clone()));
